@@ -30,6 +30,7 @@ set_option linter.unusedSectionVars false
 set_option linter.unnecessarySeqFocus false
 set_option linter.unreachableTactic false
 set_option linter.unusedTactic false
+set_option linter.unusedSimpArgs false
 namespace ImathVerif.C06
 open ImathVerif Matrix GJ
 
@@ -42,14 +43,13 @@ theorem M22_inverse_spec (tmin : α) (a : M22 α) :
     (Gen.M22.inverse tmin a).toMat =
       if 1 ≤ |a.toMat.det| ∨ ∀ i j, |a.toMat.adjugate i j| < |a.toMat.det| / tmin
       then (a.toMat.det)⁻¹ • a.toMat.adjugate else 1 := by
-  have hr : a.x00 * a.x11 - a.x10 * a.x01 = a.toMat.det := by
-    simp [M22.toMat, Matrix.det_fin_two]; ring
-  simp only [Gen.M22.inverse, sabs_eq_abs, hr, ← ite_and, ite_or_else, apply_ite M22.toMat]
-  refine if_congr (or_congr Iff.rfl ?_) ?_ ?_
-  · simp only [Fin.forall_fin_two, Matrix.adjugate_fin_two, M22.toMat, Matrix.of_apply, Matrix.cons_val', Matrix.cons_val_zero,
-      Matrix.cons_val_one, Matrix.cons_val_fin_one, and_assoc]
+  rw [M22_det_canon]
+  simp only [Gen.M22.inverse, sabs_eq_abs, div_eq_mul_inv, one_mul, ← ite_and, ite_or_else, apply_ite M22.toMat]
+  refine if_congr (or_congr (one_le_congr (by ring1)) ?_) ?_ ?_
+  · simp [Fin.forall_fin_two, Matrix.adjugate_fin_two, M22.toMat, and_assoc]
     first | done | guards4
-  · ext i j; fin_cases i <;> fin_cases j <;> simp [M22.toMat, Matrix.adjugate_fin_two, div_eq_inv_mul]
+  · ext i j; fin_cases i <;> fin_cases j <;> simp [M22.toMat, Matrix.adjugate_fin_two] <;>
+      first | ring1 | exact Or.inl (by ring1)
   · ext i j; fin_cases i <;> fin_cases j <;> simp [M22.toMat]
 
 /-- guards pass ⇒ `det ≠ 0` and the result is a two-sided inverse -/
@@ -86,11 +86,12 @@ theorem M33_inverse_spec (tmin : α) (a : M33 α) (hna : ¬ a.IsAffine) :
       if 1 ≤ |a.toMat.det| ∨ ∀ i j, |a.toMat.adjugate i j| < |a.toMat.det| / tmin
       then (a.toMat.det)⁻¹ • a.toMat.adjugate else 1 := by
   unfold M33.IsAffine at hna
-  simp only [Gen.M33.inverse, sabs_eq_abs, M33_det_expand, ← ite_and, ite_or_else, apply_ite M33.toMat, if_neg hna]
-  refine if_congr (or_congr Iff.rfl ?_) ?_ ?_
+  rw [M33_det_canon]
+  simp only [Gen.M33.inverse, sabs_eq_abs, div_eq_mul_inv, one_mul, ← ite_and, ite_or_else, apply_ite M33.toMat, if_neg hna]
+  refine if_congr (or_congr (one_le_congr (by ring1)) ?_) ?_ ?_
   · simp [Fin.forall_fin_succ, Matrix.adjugate_fin_three, M33.toMat, and_assoc]
     first | done | guards9
-  · ext i j; fin_cases i <;> fin_cases j <;> simp [M33.toMat, Matrix.adjugate_fin_three, div_eq_inv_mul] <;>
+  · ext i j; fin_cases i <;> fin_cases j <;> simp [M33.toMat, Matrix.adjugate_fin_three] <;>
       first | ring1 | exact Or.inl (by ring1)
   · ext i j; fin_cases i <;> fin_cases j <;> simp [M33.toMat]
 
@@ -102,20 +103,20 @@ theorem M33_inverse_affine_spec (tmin : α) (a : M33 α) (ha : a.IsAffine) :
       then (a.toMat.det)⁻¹ • a.toMat.adjugate else 1 := by
   have ha' := ha
   obtain ⟨h02, h12, h22⟩ := ha'
-  have hr : a.x00 * a.x11 - a.x10 * a.x01 = a.toMat.det := by
-    simp [M33.toMat, Matrix.det_fin_three, h02, h12, h22]; ring
+  have hdet : a.toMat.det = a.x00 * a.x11 - a.x01 * a.x10 := by rw [M33_det_canon, h02, h12, h22]; ring
   unfold M33.IsAffine at ha
-  simp only [Gen.M33.inverse, sabs_eq_abs, hr, ← ite_and, ite_or_else, apply_ite M33.toMat, if_pos ha]
-  refine if_ctx_congr (or_congr Iff.rfl ?_) (fun hg => ?_) (fun _ => ?_)
-  · simp only [Fin.forall_fin_two, Matrix.adjugate_fin_two, M33.linear, M22.toMat, Matrix.of_apply, Matrix.cons_val',
-      Matrix.cons_val_zero, Matrix.cons_val_one, Matrix.cons_val_fin_one, and_assoc]
+  rw [hdet]
+  simp only [Gen.M33.inverse, sabs_eq_abs, div_eq_mul_inv, one_mul, ← ite_and, ite_or_else, apply_ite M33.toMat, if_pos ha]
+  refine if_ctx_congr (or_congr (one_le_congr (by ring1)) ?_) (fun hg => ?_) (fun _ => ?_)
+  · simp [Fin.forall_fin_two, Matrix.adjugate_fin_two, M33.linear, M22.toMat, and_assoc]
     first | done | guards4
-  · have hd : a.toMat.det ≠ 0 := det_ne_zero_of_guard (s := a.linear.toMat.adjugate 0 0) (tmin := tmin) (hg.imp id fun h => h 0 0)
-    obtain ⟨D, hD⟩ : ∃ D, D = a.toMat.det := ⟨_, rfl⟩
-    rw [← hD] at hr hd ⊢
+  · have hd : a.x00 * a.x11 - a.x01 * a.x10 ≠ 0 :=
+      det_ne_zero_of_guard_mul (s := a.linear.toMat.adjugate 0 0) (hg.imp id fun h => h 0 0)
+    rw [← hdet]
+    apply eq_inv_smul_adjugate_of_mul_eq_one
     ext i j; fin_cases i <;> fin_cases j <;>
-      simp [M33.toMat, Matrix.adjugate_fin_three, h02, h12, h22] <;>
-      first | ring1 | (field_simp; first | done | ring1 | (subst hr; ring1))
+      simp [M33.toMat, Matrix.mul_apply, Fin.sum_univ_three, h02, h12, h22] <;>
+      first | ring1 | invtac α (a.x00 * a.x11 - a.x01 * a.x10) hd
   · ext i j; fin_cases i <;> fin_cases j <;> simp [M33.toMat]
 
 /-- no jump in exact arithmetic: an affine matrix accepted by the fast path gets the general cofactor formula -/
@@ -189,24 +190,26 @@ theorem M44_inverse_affine_spec (tmin : α) (a : M44 α) (ha : a.IsAffine) :
     (Gen.M44.inverse tmin a).toMat =
       if 1 ≤ |a.toMat.det| ∨ ∀ i j, |a.linear.toMat.adjugate i j| < |a.toMat.det| / tmin
       then (a.toMat.det)⁻¹ • a.toMat.adjugate else 1 := by
-  have hdet := M44_det_affine a ha
+  have hdet : a.toMat.det = a.x00 * a.x11 * a.x22 - a.x00 * a.x12 * a.x21 - a.x01 * a.x10 * a.x22 + a.x01 * a.x12 * a.x20
+      + a.x02 * a.x10 * a.x21 - a.x02 * a.x11 * a.x20 := by
+    rw [M44_det_affine a ha, M33_det_canon]; rfl
   have ha' := ha
   obtain ⟨h03, h13, h23, h33⟩ := ha'
-  have hr : a.x00 * (a.x11 * a.x22 - a.x21 * a.x12) + a.x01 * (a.x20 * a.x12 - a.x10 * a.x22)
-      + a.x02 * (a.x10 * a.x21 - a.x20 * a.x11) = a.toMat.det := by
-    rw [hdet, ← M33_det_expand]; rfl
   unfold M44.IsAffine at ha
-  simp only [Gen.M44.inverse, sabs_eq_abs, hr, ← ite_and, ite_or_else, apply_ite M44.toMat, if_pos ha]
-  refine if_ctx_congr (or_congr Iff.rfl ?_) (fun hg => ?_) (fun _ => ?_)
+  rw [hdet]
+  simp only [Gen.M44.inverse, sabs_eq_abs, div_eq_mul_inv, one_mul, ← ite_and, ite_or_else, apply_ite M44.toMat, if_pos ha]
+  refine if_ctx_congr (or_congr (one_le_congr (by ring1)) ?_) (fun hg => ?_) (fun _ => ?_)
   · simp [Fin.forall_fin_succ, Matrix.adjugate_fin_three, M44.linear, M33.toMat, and_assoc]
     first | done | guards9
-  · have hd : a.toMat.det ≠ 0 := det_ne_zero_of_guard (s := a.linear.toMat.adjugate 0 0) (tmin := tmin) (hg.imp id fun h => h 0 0)
+  · have hd : a.x00 * a.x11 * a.x22 - a.x00 * a.x12 * a.x21 - a.x01 * a.x10 * a.x22 + a.x01 * a.x12 * a.x20
+        + a.x02 * a.x10 * a.x21 - a.x02 * a.x11 * a.x20 ≠ 0 :=
+      det_ne_zero_of_guard_mul (s := a.linear.toMat.adjugate 0 0) (hg.imp id fun h => h 0 0)
+    rw [← hdet]
     apply eq_inv_smul_adjugate_of_mul_eq_one
-    obtain ⟨D, hD⟩ : ∃ D, D = a.toMat.det := ⟨_, rfl⟩
-    rw [← hD] at hr hd ⊢
     ext i j; fin_cases i <;> fin_cases j <;>
       simp [M44.toMat, Matrix.mul_apply, Fin.sum_univ_four, h03, h13, h23, h33] <;>
-      first | ring1 | (field_simp; first | done | ring1 | (subst hr; ring1))
+      first | ring1 | invtac α (a.x00 * a.x11 * a.x22 - a.x00 * a.x12 * a.x21 - a.x01 * a.x10 * a.x22 + a.x01 * a.x12 * a.x20
+        + a.x02 * a.x10 * a.x21 - a.x02 * a.x11 * a.x20) hd
   · ext i j; fin_cases i <;> fin_cases j <;> simp [M44.toMat]
 
 /-- no jump in exact arithmetic: the fast path equals the general `det⁻¹ • adjugate` -/
